@@ -100,6 +100,12 @@ func ParamInt(name string) int {
 	return n
 }
 
+// And, Or, Not build a condition without short-circuit branching: under symx
+// they produce one SMT term instead of forking the path.
+func And(a, b bool) bool { return a && b }
+func Or(a, b bool) bool  { return a || b }
+func Not(a bool) bool    { return !a }
+
 func Ite(c bool, a, b int) int {
 	if c {
 		return a
